@@ -46,6 +46,8 @@ type langOpts struct {
 	builtin bool              // use BoolOpt/StringsOpt/StringsArg instead of the logging custom type
 	policy  flag.ErrorHandling
 	keepErr bool
+	first   []string // when non-nil: this command line is run first, on the same instance
+	hasFirst bool
 }
 
 func optName(o ref.OptDecl) string {
@@ -132,6 +134,11 @@ func runLang(d *ref.Decl, spec string, argv []string, lo langOpts) LangObs {
 		snapshot()
 	}
 	full := append([]string{"app"}, argv...)
+	if lo.hasFirst {
+		sharedBuf.Reset()
+		runDirect(&sharedBuf, func() error { return app.Run(append([]string{"app"}, lo.first...)) })
+		obs = LangObs{}
+	}
 	sharedBuf.Reset()
 	o := runDirect(&sharedBuf, func() error { return app.Run(full) })
 	obs.Exits = o.Exits
